@@ -196,6 +196,12 @@ def _copy(v, memo):
             n = SymSeq(v.arr, v.n, list(v.over), v.wrap, v.unwrap, v.tag)
             memo[id(v)] = n
         return n
+    if isinstance(v, Abstract) and v.tag == "concrete_iter":
+        if id(v) in memo:
+            return memo[id(v)]
+        n = Abstract("concrete_iter", items=list(v.items), kind=getattr(v, "kind", None))
+        memo[id(v)] = n
+        return n
     if isinstance(v, tuple):
         return tuple(_copy(x, memo) for x in v)
     if isinstance(v, dict):
@@ -1781,6 +1787,9 @@ class Engine:
                     return self.concat(parts) if parts else ""
             if all(isinstance(a, (str, int)) for a in args):
                 return getattr(recv, name)(*args)
+        if isinstance(recv, Abstract) and recv.tag == "concrete_iter" and name == "add" and getattr(recv, "kind", "") == "set":
+            recv.items = list(recv.items) + [args[0]]      # (sets of symbolic members keep every added member; membership is decided by equality)
+            return None
         if isinstance(recv, Abstract) and recv.tag == "concrete_iter" and name in ("issuperset", "issubset"):
             other = self._concrete_items(args[0])
             if other is not None:
